@@ -244,6 +244,8 @@ def replay_once(binpath, env, case, timeout=120):
         r = subprocess.run([binpath, case], stdout=subprocess.PIPE,
                            stderr=subprocess.STDOUT, env=e, timeout=timeout)
         out = r.stdout.decode('utf-8', 'replace')
+        if r.returncode == -14:
+            out += '\nTIMEOUT (per-case alarm)'
         return (r.returncode != 0, out)
     except subprocess.TimeoutExpired as ex:
         return (True, 'TIMEOUT after %ds' % timeout)
@@ -479,12 +481,31 @@ def main(argv):
                 shutil.copy(cand.path, dst)
                 violations.append((cand, 'sweep', dst))
                 continue
+            # a per-case alarm is a budget, not an oracle: only a property that
+            # claims termination (C14) turns a reproducible timeout into a
+            # violation; everywhere else it is recorded as inconclusive
+            why = ''
+            try:
+                why = open(cand.path + '.why').read()
+            except OSError:
+                pass
+            timed_out = 'per-case timeout' in why
+            if timed_out and not spec.get('timeout_is_violation'):
+                inconclusive.append('a case hit the per-case time limit in %s '
+                                    '(%s): inconclusive, not a violation: %s'
+                                    % (cand.config, cand.engine, cand.path))
+                continue
             bad, out = replay_once(replay_bin, env, cand.path)
             if not bad:
                 inconclusive.append('candidate from %s did not reproduce in a '
                                     'fresh process: %s' % (cand.engine, cand.path))
                 continue
             site = failure_site(out)
+            if site == 'timeout' and not spec.get('timeout_is_violation'):
+                inconclusive.append('replay of a candidate from %s exceeded the '
+                                    'time limit: inconclusive: %s'
+                                    % (cand.engine, cand.path))
+                continue
             if site in seen_sites and not args.keep_going:
                 continue       # same site already reported: skip before minimising
             path = cand.path
